@@ -888,48 +888,61 @@ func resetOnNextActivation(p *Prog, f *FuncInfo, g *Graph, apt Point, at ast.Nod
 		if found {
 			continue // some path leaves the handler without clearing the guard
 		}
-		// an `if recv.G == nil { ... recv.fld = fresh ... }` anywhere in the same function
+		// an `if recv.G == nil { ... recv.fld = fresh ... }` anywhere in the same function — or, when the release
+		// was moved into a helper method, in another method of the same type
 		ok := false
 		line := 0
-		inspectNoLit(f.Body, func(m ast.Node) bool {
-			ifs, isIf := m.(*ast.IfStmt)
-			if !isIf {
-				return true
+		var hosts []*FuncInfo
+		hosts = append(hosts, f)
+		if f.Root().Obj != nil && recvNamed(f.Root().Obj) != nil {
+			for _, h := range p.Funcs {
+				if h != f && h.Body != nil && h.Parent == nil && h.Obj != nil && recvNamed(h.Obj) == recvNamed(f.Root().Obj) {
+					hosts = append(hosts, h)
+				}
 			}
-			be, isBin := unparen(ifs.Cond).(*ast.BinaryExpr)
-			if !isBin || be.Op != token.EQL {
-				return true
-			}
-			var side ast.Expr
-			if id, k := unparen(be.Y).(*ast.Ident); k && id.Name == "nil" {
-				side = be.X
-			} else if id, k := unparen(be.X).(*ast.Ident); k && id.Name == "nil" {
-				side = be.Y
-			}
-			if side == nil || fieldOf(in, side) != gv {
-				return true
-			}
-			for _, st := range ifs.Body.List {
-				if as, k := st.(*ast.AssignStmt); k {
-					for i, l := range as.Lhs {
-						if fieldOf(in, l) == fld && i < len(as.Rhs) {
-							fresh := true
-							inspectNoLit(as.Rhs[i], func(z ast.Node) bool {
-								if e, k := z.(ast.Expr); k && fieldOf(in, e) == fld {
-									fresh = false
+		}
+		for _, host := range hosts {
+			in := info(host)
+			inspectNoLit(host.Body, func(m ast.Node) bool {
+				ifs, isIf := m.(*ast.IfStmt)
+				if !isIf {
+					return true
+				}
+				be, isBin := unparen(ifs.Cond).(*ast.BinaryExpr)
+				if !isBin || be.Op != token.EQL {
+					return true
+				}
+				var side ast.Expr
+				if id, k := unparen(be.Y).(*ast.Ident); k && id.Name == "nil" {
+					side = be.X
+				} else if id, k := unparen(be.X).(*ast.Ident); k && id.Name == "nil" {
+					side = be.Y
+				}
+				if side == nil || fieldOf(in, side) != gv {
+					return true
+				}
+				for _, st := range ifs.Body.List {
+					if as, k := st.(*ast.AssignStmt); k {
+						for i, l := range as.Lhs {
+							if fieldOf(in, l) == fld && i < len(as.Rhs) {
+								fresh := true
+								inspectNoLit(as.Rhs[i], func(z ast.Node) bool {
+									if e, k := z.(ast.Expr); k && fieldOf(in, e) == fld {
+										fresh = false
+									}
+									return fresh
+								})
+								if fresh {
+									ok = true
+									line = p.Fset.Position(as.Pos()).Line
 								}
-								return fresh
-							})
-							if fresh {
-								ok = true
-								line = p.Fset.Position(as.Pos()).Line
 							}
 						}
 					}
 				}
-			}
-			return true
-		})
+				return true
+			})
+		}
 		if ok {
 			return true, fmt.Sprintf("two-phase reset: guard %s is cleared on every path after the release, and the first-arrival branch `%s == nil` re-initialises %s (line %d)", gv.Name(), gv.Name(), fld.Name(), line)
 		}
@@ -1099,6 +1112,33 @@ func ruleR5(c *Ctx) {
 							}
 							for _, e := range cc.List {
 								b.handled[typeString(in.TypeOf(e))] = true
+							}
+						}
+					}
+					// a helper that is handed the received message and dispatches over it
+					if cl, ok := m.(*ast.CallExpr); ok {
+						if cf := p.byObj[callee(in, cl)]; cf != nil && cf.Body != nil && cf.Pkg == op.Func.Pkg {
+							passes := false
+							for _, a := range cl.Args {
+								if isIMessage(in.TypeOf(a)) {
+									passes = true
+								}
+							}
+							if passes {
+								cin := info(cf)
+								for _, arms := range typeDispatches(p, cf, isIMessage) {
+									for _, a := range arms {
+										if len(a.Types) == 0 {
+											b.handled["default"] = true
+										}
+										for _, t := range a.Types {
+											if t != nil {
+												b.handled[typeString(t)] = true
+											}
+										}
+									}
+								}
+								_ = cin
 							}
 						}
 					}
